@@ -23,6 +23,16 @@ SAFE = {"reversed": reversed, "range": range, "map": map, "filter": filter, "sum
         "set": set, "list": list, "sorted": sorted, "None": None, "True": True, "False": False}
 
 
+def _safe_import(name: str, *a: Any, **k: Any) -> Any:
+    """C code of the standard library imports its Python half through the builtins of the calling frame (a compiled
+    pattern's sub() imports `re`): only pure standard-library modules are admitted."""
+    import importlib
+    if name.split(".")[0] in PURE_STDLIB or name.split(".")[0] in ("re", "_sre", "sre_parse", "sre_compile", "sre_constants"):
+        return importlib.import_module(name)
+    raise ImportError(f"tabulation: import of {name} is not admitted")
+
+
+SAFE["__import__"] = _safe_import
 PURE_STDLIB = {"re", "fnmatch", "string", "itertools", "functools", "collections", "math", "operator", "copy", "uuid", "ipaddress", "datetime", "base64", "typing"}
 
 
